@@ -319,7 +319,7 @@ def parse_kv(s):
         return {"raw": s}
     out = {}
     # `last=` and `model=`/`spec=` values contain spaces: split on known keys
-    keys = ["D", "ok", "c11", "lex", "out", "spec", "rounds", "srounds", "last", "model", "wf", "range", "guard", "sole"]
+    keys = ["D", "ok", "c11", "lex", "out", "spec", "rounds", "srounds", "last", "model", "wf", "range", "guard", "sole", "old"]
     toks = s.split(" ")
     cur = None
     for t in toks:
@@ -1676,11 +1676,11 @@ def fix_case(ctx, case, lines, with_model, cap, profile="fix"):
 FIX_KIND_CLASSES = {
     "parse": ["emptyBlock", "stmtRangeOverrun", "sharedLine"],
     "locality": ["stmtRangeOverrun", "sharedLine", "elifHeader", "emptyBlock", "decoratedStmt"],
-    "behaviour": ["stmtRangeOverrun", "sharedLine", "elifHeader", "decoratedStmt", "walrusInRemoved", "fstringTail", "fstringConversion"],
+    "behaviour": ["stmtRangeOverrun", "sharedLine", "elifHeader", "decoratedStmt", "fstringConversion"],
     "still": ["decoratedStmt"],
     "exact": ["stmtRangeOverrun", "sharedLine", "elifHeader", "decoratedStmt"],
-    "binding": ["walrusInRemoved"],
-    "newdiag": ["walrusInRemoved", "sharedLine", "elifHeader", "stmtRangeOverrun", "decoratedStmt"],
+    "binding": [],        # was walrusInRemoved, repaired by 21e29d0: a removed statement that binds something else is new
+    "newdiag": ["sharedLine", "elifHeader", "stmtRangeOverrun", "decoratedStmt"],
 }
 
 
@@ -1710,7 +1710,7 @@ def flush_fixes(ctx, pending, with_model):
                 ctx.disagree("guard", dict(case, statement=p[5]), "removal fix %s" % ("attached" if p[4] else "not attached"),
                              "Gen.removalGuard = " + str(mo.get("guard")))
             if mo.get("guard") == "1" and mo.get("sole") == "0":
-                ctx.tag("guard_admits_other_bindings_" + str(mo.get("D")))
+                ctx.disagree("model-vs-spec", dict(case, statement=p[5]), "Gen.removalGuard accepts", "soleBinding is false")
         if op == "R" and mo is not None:
             ctx.corr("range")
             got = ",".join(map(str, p[4]))
@@ -1735,7 +1735,7 @@ def flush_fixes(ctx, pending, with_model):
                 allowed = FIX_KIND_CLASSES[kind]
                 if kind == "behaviour" and any(k2 in ("exact", "locality", "parse") for k2, _w in p[4]):
                     # fstringConversion explains a changed result only when the tree is exactly the intended one
-                    allowed = [c for c in allowed if c not in ("fstringConversion", "fstringTail")]
+                    allowed = [c for c in allowed if c != "fstringConversion"]
                 cls = next((c for c in allowed if c in cls_list), None)
                 ctx.candidate(dict(case, round=k), what, cls=cls, conforms=conform.get(key, True), stream="fixes")
         elif op == "X" and mo is not None:
